@@ -71,6 +71,18 @@ Definition sent_counter (s : fsh * list flo) : nat := d_rcnt (sh_up (fst s)).
 Definition recv_counter (s : fsh * list flo) : nat := d_wcnt (sh_down (fst s)).
 Definition phase_of (i : nat) (s : fsh * list flo) : phase := match nth_error (snd s) i with Some l => snd l | None => PDone end.
 
+(* the variant "propagate EOF to the local side by CLOSING it" (LocalConn without CloseWrite): at the step at which the
+   download loop ends the local connection is closed, so the upload loop's source yields nothing any more.  Kept only
+   to state what goes wrong with it (Proofs/Forward.v close_on_download_end_refuted). *)
+Definition fstep_close (l : flo) (s : fsh) : flo * fsh :=
+  let '(l', s') := fstep false l s in
+  match fst l, snd l, snd l' with
+  | true, PDone, _ => (l', s')
+  | true, _, PDone => (l', setd false (with_src (getd false s') [] 0) s')
+  | _, _, _ => (l', s')
+  end.
+Definition frun_close (s : fsh * list flo) (sched : list nat) : fsh * list flo := run fsh flo fstep_close s sched.
+
 (* one copy loop on its own *)
 Definition solo (x : phase * dirst) : phase * dirst :=
   match fst x with
